@@ -54,18 +54,67 @@ theorem dedupLoop_spec (cb : Nat → Elem → Elem → Option Bool) (xs : List E
             have hperm : ((ys.set r ys[wr]).set wr ys[r]).Perm xs := (List.set_set_perm hr' hwr).trans hp
             obtain ⟨ys', wr', ok, hrun, hp', h1', h2'⟩ := ih _ (r + 1) (wr + 1) (calls + 1) w hperm (by omega) (by omega)
             refine ⟨ys', wr', ok, ?_, hp', h1', ?_⟩
-            · simp [dedupLoop, hr, ha, hb, hcb, hne, hsw, hrun]
+            · rw [dedupLoop]
+              simp only [hr, not_true_eq_false, ↓reduceIte, ha, hb, hcb, hne, ne_eq, not_false_eq_true, hsw]
+              exact hrun
             · rcases h2' with h | h
               · exact Or.inl h
               · exact Or.inl (by omega)
           · have heq : r = wr := by omega
             obtain ⟨ys', wr', ok, hrun, hp', h1', h2'⟩ := ih ys (r + 1) (wr + 1) (calls + 1) w hp (by omega) (by omega)
             refine ⟨ys', wr', ok, ?_, hp', h1', ?_⟩
-            · simp [dedupLoop, hr, ha, hb, hcb, heq, hrun]
+            · rw [dedupLoop]
+              simp only [hr, not_true_eq_false, ↓reduceIte, ha, hb, hcb, hne]
+              exact hrun
             · rcases h2' with h | h
               · exact Or.inl h
               · exact Or.inl (by omega)
     · refine ⟨ys, wr, true, ?_, hp, h1, Or.inr h2⟩
       simp [dedupLoop, hr]
+
+theorem Own.of_perm {ins xs ys evs held} (h : Own ins xs evs held) (hp : ys.Perm xs) : Own ins ys evs held := by
+  apply h.of_count
+  intro a
+  have : (ids ys).count a = (ids xs).count a := (hp.map (fun e : Elem => e.id)).count_eq a
+  omega
+
+theorem dedupBy_unfold (c : Cfg) (v : VS) (cb : Nat → Elem → Elem → Option Bool) (w : W) :
+    dedupBy c v cb w =
+      if v.len ≤ 1 then truncate c v v.len w
+      else
+        let r := dedupLoop cb v.len v.len v.slots 1 1 0 w
+        if r.2.2.2 then truncate c { v with slots := r.1 } r.2.1 r.2.2.1
+        else ({ v with slots := r.1 }, r.2.2.1, none) := by
+  unfold dedupBy
+  split
+  · rfl
+  · generalize dedupLoop cb v.len v.len v.slots 1 1 0 w = r
+    rcases r with ⟨s, wr, w1, ok⟩
+    cases ok <;> rfl
+
+/-- `dedup_by` / `dedup_by_key` / `dedup` with *any* callback (any answers, any panic point, and
+destructors that may panic in the final `truncate`): the ledger is preserved and nothing
+leaks — at every moment the slice is a permutation of the original elements -/
+theorem dedupBy_own {c : Cfg} {v : VS} {xs : List Elem} {ins held : List Nat} (hd : c.needsDrop = true)
+    (h : RepB c v xs) (cb : Nat → Elem → Elem → Option Bool) (w : W) (ho : Own ins xs w.evs held) :
+    ∃ ys, RepB c (dedupBy c v cb w).1 ys ∧ Own ins ys (dedupBy c v cb w).2.1.evs held := by
+  rw [dedupBy_unfold]
+  by_cases h1 : v.len ≤ 1
+  · simp only [h1, ↓reduceIte]
+    exact truncate_own hd h v.len w ho
+  · simp only [h1, ↓reduceIte]
+    rcases v with ⟨sl, l, cp⟩
+    obtain ⟨rest, rfl, rfl⟩ := h.toRep.nf
+    obtain ⟨ys', wr', ok, hrun, hp', _, _⟩ := dedupLoop_spec cb xs rest xs.length xs 1 1 0 w (List.Perm.refl _) (Nat.le_refl _) (Nat.le_refl _)
+    simp only [hrun]
+    have hlen : ys'.length = xs.length := hp'.length_eq
+    have hrep : RepB c ⟨ys'.map some ++ rest, xs.length, cp⟩ ys' := by
+      have := h.shrink (ys := ys') (rest' := rest) (by simp [hlen]) (by omega)
+      rw [hlen] at this
+      exact this
+    have ho' : Own ins ys' w.evs held := ho.of_perm hp'
+    cases ok with
+    | true => exact truncate_own hd hrep wr' w ho'
+    | false => exact ⟨ys', hrep, ho'⟩
 
 end Bump.V
